@@ -126,6 +126,53 @@ def explore(chk, harness, count, quick, tag, sin_steps=None):
     return recs, optexts, mism, drift, san, fails
 
 
+def program_tune(chk, tag, nruns):
+    """Whole program, sinusoidal and linear RF at a low RF voltage (V0/V_RF = 0.3..0.5, where a wrong amplitude or energy
+    loss handed to the RF map changes the small-amplitude tune by several per cent): a displaced start distribution is
+    tracked for 4 synchrotron periods and the frequency of the recorded bunch position is fitted; it must be one
+    oscillation per `steps` steps."""
+    import shutil
+    import numpy as np
+    import prog
+    exe = lib.build_inovesa("plain")
+    h5 = lib.build_h5dump()
+    rng = lib.Rng(chk.seed, "C03/tune/" + tag)
+    fails, runs = [], []
+    for k in range(nruns):
+        V = rng.choice([1.0e5, 1.15e5, 1.3e5])
+        lin = 0 if k % 3 != 2 else 1
+        N = rng.choice([100, 150])
+        n = rng.choice([64, 65])
+        d = prog.scratch()
+        try:
+            with open(os.path.join(d, "start.txt"), "w") as f:
+                for _ in range(30000):
+                    f.write("%.5f %.5f\n" % (rng.gauss(0.6, 1), rng.gauss(0, 1)))
+            a = list(prog.BASE_ARGS) + ["-s", str(n), "-N", str(N), "-T", "4", "-n", "2", "-G", "0", "-V", repr(V),
+                                        "--LinearRF", str(lin), "-i", "start.txt", "-o", "a.h5", "--RenormalizeCharge", "-1"]
+            r = prog.run_inovesa(exe, a, d)
+            if r.rc != 0 or not os.path.exists(os.path.join(d, "a.h5")):
+                fails.append(("run failed: %s" % (r.err or r.out)[-200:], a))
+                continue
+            D = prog.dump(h5, os.path.join(d, "a.h5"))
+            pos = np.array(prog.fvals(D["dsets"]["/BunchPosition/data"]))
+            t = np.array(prog.fvals(D["dsets"]["/Info/AxisValues_t"]))
+            best = None
+            for fq in np.linspace(0.8, 1.2, 801):
+                A = np.vstack([np.cos(2 * math.pi * fq * t), np.sin(2 * math.pi * fq * t), np.ones_like(t)]).T
+                c, _res, _rk, _sv = np.linalg.lstsq(A, pos, rcond=None)
+                e = float(((A @ c - pos) ** 2).sum())
+                if best is None or e < best[0]:
+                    best = (e, float(fq), math.hypot(c[0], c[1]))
+            runs.append(dict(V=V, linear=lin, steps=N, n=n, tune=best[1], amplitude=best[2]))
+            if best[2] > 5e-3 and abs(best[1] - 1.0) > 0.02:
+                fails.append(("program with %s RF at V_RF=%g: the bunch centroid oscillates %.3f times per %d steps instead of once "
+                              "(amplitude %.3g)" % ("linear" if lin else "sinusoidal", V, best[1], N, best[2]), a))
+        finally:
+            shutil.rmtree(d, ignore_errors=True)
+    return runs, fails
+
+
 def run(chk):
     ok, det = lib.prove(chk, MODULES, min_examples=1)
     harness = lib.build_harness()
@@ -160,11 +207,17 @@ def run(chk):
         "the sinusoidal model is compared with the linear one-step map for small amplitudes only (tolerance 2.5% of the amplitude: curvature of the sine); its parameters follow main()'s arithmetic for the default machine",
         "first-order splitting error allowed for the closure: (0.5*theta + 20*theta^2)*amplitude + 2e-4",
     ]
+    truns, tfails = program_tune(chk, "main", 2 if quick else 12)
+    chk.cov["program_tune"] = truns
     if san:
         chk.violation("sanitizer/abort in the implementation: " + san[:300],
                       "# harness aborted\n" + san + "\n" + "".join(optexts.values())[:100000], tag="sanitizer")
     for r, f in fails[:1]:
         chk.violation("C03 violated: " + f, "# C03 oracle failure: %s\n%s" % (f, r["optext"]), tag="oracle_" + r["id"])
+    for f, a in tfails[:1]:
+        chk.violation("C03 violated: " + f, "# C03: %s\n# start.txt: 30000 lines `q p` drawn from N(0.6,1) x N(0,1)\ninovesa %s\n" % (f, " ".join(a)),
+                      tag="tune")
+    fails = fails + [(None, f) for f, a in tfails]
     broken = []
     if not ok:
         broken.append("proof obligation: " + str(det.get("broken"))[:1500])
